@@ -391,6 +391,32 @@ def s02_5_onepass(ctx, P):
                      ('pubalg', [r'field:OnePassSignature\.pub_algorithm$'])]:
         rdom(ctx, '%s:S02-5:matches:%s' % (P, fld), b, trues, rxs,
              'OnePassSignature::matches returns true only after comparing %s with the signature' % fld)
+    # version correspondence (RFC 9580 5.4): a v3 one-pass packet announces a v4 signature, a v6 one a v6 signature; every other
+    # pairing - in particular a one-pass packet of an unknown version - disagrees with the signature.  Accept cells are read off
+    # the nested match on (ops.version_specific, sig.version_specific).
+    from rules.common import arm_context, enum_switch_info, edge_variants
+    dom = b.dominators()
+    can = b.can_reach(set(trues))
+    cells = set()
+    nsw = 0
+    for i, t in b.switches():
+        info = enum_switch_info(b, i)
+        if not info or not info[0].endswith('SignatureVersionSpecific'):
+            continue
+        nsw += 1
+        ops = [vs for a, vs in arm_context(b, i, dom) if a == 'OpsVersionSpecific']
+        opsv = tuple(sorted(min(ops, key=len))) if ops else ('*',)
+        for j, _ in b.succ(i):
+            if j in can:
+                for v in edge_variants(b, i, j) or []:
+                    cells.add((opsv, v))
+    # paths to `true` that never look at the signature's version at all
+    sig_sw = [i for i, t in b.switches() if (enum_switch_info(b, i) or ('',))[0].endswith('SignatureVersionSpecific')]
+    ok_all, wit = must_pass(b, trues, sig_sw) if trues else (False, None)
+    want = {(('V3',), 'V4'), (('V6',), 'V6')}
+    ctx.check(P + ':S02-5:matches:version-pairs', 'R-table', 'OnePassSignature::matches accepts exactly the pairs (OPS v3, signature v4) and (OPS v6, signature v6)',
+              cells == want and ok_all and nsw >= 1, function=b.path, table=sorted((list(a), v) for a, v in cells),
+              missing=None if (cells == want and ok_all) else 'accepted (one-pass version, signature version) cells are %s%s' % (sorted((list(a), v) for a, v in cells), '' if ok_all else '; and `true` is reachable without looking at the signature version'))
 
 
 def must_seq(ctx, key, b, seq, desc, rule='R-seq'):
